@@ -521,6 +521,14 @@ def _stream_case(draw):
         items.insert(min(csm_pos, len(items)), {"kind": "csm", "code": F.CSM, "token": b"", "options": draw(st.sampled_from([[], [[2, b"\x04\x80"]], [[2, b"\x10\x00\x00"], [4, b""]], [[8, b"e"]]])), "payload": b""})
     if draw(st.integers(0, 3)) == 0:
         items.insert(draw(st.integers(0, len(items))), {"kind": "raw", "bytes": draw(st.sampled_from(_MALFORMED))})
+    elif draw(st.integers(0, 5)) == 0:
+        # a frame announced right at the max-message-size boundary (whole frame = MAXSIZE + k): only its header
+        # and token are sent -- above the limit that is enough to demand the Abort, at or below it the
+        # endpoint has to keep waiting for the body
+        tkl = draw(st.integers(0, 8))
+        k = draw(st.integers(-3, 16))
+        blen = MAXSIZE + k - 6 - tkl
+        items.append({"kind": "raw", "bytes": bytes([0xF0 | tkl]) + (blen - 65805).to_bytes(4, "big") + b"\x01" + b"T" * tkl})
     total = sum(len(item_bytes(it)) for it in items)
     ncuts = draw(st.integers(0, 8))
     cuts = sorted({draw(st.integers(0, max(total, 1))) for _ in range(ncuts)})
@@ -585,7 +593,7 @@ def selftest():
 RULE = (
     "stream: Hypothesis builds a byte stream of 0-11 frames with the independent RFC 8323 serialiser (requests/responses with tokens 0-8, options, bodies of "
     "{0,1,11,12,13,14,267,268,269,270,1000,65803..65806,70000} bytes; CSM at a generated position or missing, with elective/critical unknown options; Ping, Pong, Release, Abort, Empty; "
-    "optionally one malformed frame: announced length above max-message-size, TKL 9/15, option nibble 15, option longer than the frame, truncated extension, non-UTF-8 string option) and a cut set "
+    "optionally one malformed frame: announced length far above, or whole-frame size within -3..+16 bytes of, max-message-size, TKL 9/15, option nibble 15, option longer than the frame, truncated extension, non-UTF-8 string option) and a cut set "
     "(random cuts, cuts forced inside frame headers); the same stream is also fed whole and, if <= 600 bytes, byte by byte, into a real TcpConnection on a fake transport (server and client role). "
     "Oracle: a reference endpoint built on the independent framer says which messages must be dispatched (order, code, token, options, payload), which Pongs written, and whether the stream ends in "
     "Abort+close (CSM gate, oversize, TKL, unparsable, critical signalling option) or in a peer Release/Abort; everything aiocoap writes must parse as RFC 8323 frames, starting with its CSM. "
